@@ -57,6 +57,23 @@ class C14(Prop):
             c["pool"]["sched_seed"] = core.H(seed, "np", p, sw)
             c["pool"]["bias"] = "uniform"
             vs.append(("nproc", c))
+        # hyper-parameter sweep: the same data and seeds were fitted just before with other settings
+        c = workload.clone(case)
+        hist = []
+        for j in range(r.randint(1, 2)):
+            h = workload.clone(case)
+            h["history"] = []
+            what = r.choice(["lambda", "biased", "beta", "lambda"])
+            if what == "lambda":
+                h["args"]["sparsity_weight"] = dict(form="float", value=r.choice([0.02, 0.6, 3.0]), seed=0)
+            elif what == "biased":
+                h["args"]["biased_covariance"] = not h["args"]["biased_covariance"]
+            else:
+                h["args"]["label_switching_cost"] = dict(form="float", value=r.choice([0.0, 1.0, 50.0]), seed=0)
+            hist.append(h)
+        c["history"] = hist
+        c["pool"]["sched_seed"] = core.H(seed, "sweep")
+        vs.append(("history", c))
         # preceding process history
         for hno in range(2 if tier == "quick" else 3):
             c = workload.clone(case)
